@@ -75,13 +75,38 @@ def time0():
     # round trip is only good to ~1e-9 s -- outside what any property here is about
     gen = st.tuples(st.integers(41500, 70000), st.floats(0.0, 1.0, exclude_max=True, allow_nan=False))
     scale = st.sampled_from(["utc"] * 5 + ["tai", "tt"])
-    return st.tuples(st.one_of(leap, gen, gen), scale).map(lambda t: {"mjd": t[0][0], "frac": t[0][1], "scale": t[1]})
+    # presentation attributes of the Time object (they do not change the instant): output format and printing precision
+    fmt = st.sampled_from([None, None, None, None, "jd", "isot", "unix", "iso", "gps", "byear", "datetime64"])
+    prec = st.sampled_from([None, None, 0, 3, 9])
+    loc = st.sampled_from([None, None, None, None, None, "site"])  # an observatory location attached to the Time (it does not change the instant)
+
+    def mk(t):
+        d = {"mjd": t[0][0], "frac": t[0][1], "scale": t[1]}
+        if t[2]:
+            d["fmt"] = t[2]
+        if t[3] is not None:
+            d["precision"] = t[3]
+        if t[4]:
+            d["loc"] = t[4]
+        return d
+
+    return st.tuples(st.one_of(leap, gen, gen), scale, fmt, prec, loc).map(mk)
 
 
 def mk_time(spec):
     if spec is None:
         return None
-    return Time(spec["mjd"], spec["frac"], format="mjd", scale=spec.get("scale", "utc"))
+    kw = {}
+    if spec.get("loc"):
+        from astropy.coordinates import EarthLocation
+
+        kw["location"] = EarthLocation.from_geodetic(-79.84 * u.deg, 38.43 * u.deg, 807 * u.m)
+    t = Time(spec["mjd"], spec["frac"], format="mjd", scale=spec.get("scale", "utc"), **kw)
+    if spec.get("fmt"):
+        t.format = spec["fmt"]
+    if spec.get("precision") is not None:
+        t.precision = spec["precision"]
+    return t
 
 
 def metas():
